@@ -84,6 +84,8 @@ def op_line(op):
         return "cexit"
     if kind == "setcap":
         return "setcap %d" % op[1]
+    if kind == "fail":
+        return "fail" + "".join(" %d" % r for r in op[1])
     if kind == "call":
         _, h, name, *args = op
         parts = ["call", h, name]
@@ -228,6 +230,26 @@ def result_shape(name, args):
     return "one"
 
 
+FAILING = set()
+_FAULTS_INSTALLED = []
+
+
+def install_write_faults(ns):
+    """wrap JSONCollection._save_to_resource once: writing a file listed in FAILING raises
+    OSError(ENOSPC) before anything is touched"""
+    if _FAULTS_INSTALLED:
+        return
+    J = ns.json_mod.JSONCollection
+    orig = J._save_to_resource
+
+    def faulty(self):
+        if FAILING and self._filename in FAILING:
+            raise OSError(28, "No space left on device")
+        return orig(self)
+    J._save_to_resource = faulty
+    _FAULTS_INSTALLED.append(orig)
+
+
 class Runner:
     """Executes structured ops against the real classes of one family and renders
     the same lines the Lean driver prints."""
@@ -318,6 +340,12 @@ class Runner:
             return ["ok", self.state_line()]
         if kind == "extdel":
             self.world.delete(op[1])
+            return ["ok", self.state_line()]
+        if kind == "fail":
+            # from now on writing these files fails with OSError (disk full); [] heals the disk
+            install_write_faults(self.ns)
+            FAILING.clear()
+            FAILING.update(self.world.path(r) for r in op[1])
             return ["ok", self.state_line()]
         if kind in ("enter", "exit", "center", "cexit", "setcap"):
             try:
